@@ -22,7 +22,7 @@ CONSTANTS Nums,          \* numerators/denominators of the rational wave paramet
           Vals,          \* sample values
           Sub,           \* grid points per sample interval
           WaveVariant,   \* "design" | "c_times_f"
-          AmpVariant,    \* "linear" | "swapped" | "hold"
+          AmpVariant,    \* "linear" | "swapped" | "hold" | "truncated"
           RampVariant    \* "clamped" | "unclamped"
 
 VARIABLES sig,    \* the sampled signal (sequence of integers)
